@@ -62,7 +62,8 @@ type c03cfg struct {
 	Triggered []int  `json:"triggered"` // node indices that get triggered
 	Dups      int    `json:"duplicate_budget"`
 	Drops     int    `json:"drops_per_receiver"`
-	Pre       []int  `json:"pre_triggered,omitempty"` // nodes whose trigger happens before any delivery (restricts the schedules explored)
+	Pre       []int  `json:"pre_triggered,omitempty"`         // nodes whose trigger happens before any delivery (restricts the schedules explored)
+	DupTx     bool   `json:"duplicate_tx_identity,omitempty"` // Gnosis: the same (prefix, sender) is queued twice, so the trigger lists one identity twice
 }
 
 type c03state struct {
@@ -132,8 +133,13 @@ func (net *c03net) initial() *c03state {
 			for k := 0; k < net.cfg.NumIDs-1; k++ {
 				prefix := make([]byte, 32)
 				prefix[0], prefix[31] = byte(0xa0+k), byte(k)
+				sender := kpx.Addr(200 + k)
+				if net.cfg.DupTx {
+					prefix[0], prefix[31] = 0xa0, 0
+					sender = kpx.Addr(200)
+				}
 				_, err := q.InsertTransactionSubmittedEvent(context.Background(), gnosisdb.InsertTransactionSubmittedEventParams{
-					Index: int64(k), BlockNumber: 3, BlockHash: []byte{1}, Eon: c03Set, IdentityPrefix: prefix, Sender: shdb.EncodeAddress(kpx.Addr(200 + k)), GasLimit: 21000,
+					Index: int64(k), BlockNumber: 3, BlockHash: []byte{1}, Eon: c03Set, IdentityPrefix: prefix, Sender: shdb.EncodeAddress(sender), GasLimit: 21000,
 				})
 				kpx.Must(err)
 			}
@@ -478,7 +484,7 @@ func c03() *report.Check {
 					}
 					if c.Thorough {
 						for _, nid := range []int{1, 2} {
-							cfgs = append(cfgs, c03cfg{fl, nid, sub, 1, drops, nil})
+							cfgs = append(cfgs, c03cfg{fl, nid, sub, 1, drops, nil, false})
 						}
 					} else {
 						nid := 1
@@ -487,23 +493,26 @@ func c03() *report.Check {
 						}
 						switch {
 						case len(sub) < 3:
-							cfgs = append(cfgs, c03cfg{fl, nid, sub, 0, 0, nil})
+							cfgs = append(cfgs, c03cfg{fl, nid, sub, 0, 0, nil, false})
 							if fl == "core" {
-								cfgs = append(cfgs, c03cfg{fl, 1, sub, 1, 0, nil})
+								cfgs = append(cfgs, c03cfg{fl, 1, sub, 1, 0, nil, false})
 							}
 						case fl == "core":
-							cfgs = append(cfgs, c03cfg{fl, nid, sub, 0, 0, nil})
+							cfgs = append(cfgs, c03cfg{fl, nid, sub, 0, 0, nil, false})
 						default:
 							// quick: two triggers happen before any delivery, the third at any time
 							pre := []int{0, 1}
 							if fl == "service" {
 								pre = []int{0, 1, 2} // the late-trigger schedules of this flavour are left to the thorough tier
 							}
-							cfgs = append(cfgs, c03cfg{fl, nid, sub, 0, 0, pre})
+							cfgs = append(cfgs, c03cfg{fl, nid, sub, 0, 0, pre, false})
 						}
 					}
 				}
 			}
+			// Gnosis: one sender submitted the same identity prefix twice (legal): honest
+			// shares / keys messages then carry equal neighbouring identities
+			cfgs = append(cfgs, c03cfg{Flavour: "gnosis", NumIDs: 3, Triggered: []int{0, 1}, DupTx: true}, c03cfg{Flavour: "gnosis", NumIDs: 3, Triggered: []int{1, 2}, DupTx: true})
 			for i, cfg := range cfgs {
 				if i%c.NShards != c.Shard {
 					continue
